@@ -201,7 +201,7 @@ def session_case(rng, tier):
         w.random_step()
     e = fixture(w)
     w.emit('fm_snap')
-    w.emit('fm_close')
+    w.emit(rng.choice(['fm_close', 'fm_close', 'fm_close keep']))
     w.emit('fm_stat')
     if rng.random() < 0.3:
         # from here on the path given to the library is a symbolic link to the file
@@ -225,7 +225,7 @@ def session_case(rng, tier):
             if k % rng.choice([3, 5, 8]) == 0:
                 w.emit('fm_snap')
         w.emit('fm_snap')
-        w.emit('fm_close')
+        w.emit(rng.choice(['fm_close', 'fm_close', 'fm_close keep']))
         w.emit('fm_stat')
     # ---- read-write: prior content intact (old time stamps are not refreshed by an open), and the same calls go through
     if rng.random() < 0.7:
@@ -234,18 +234,18 @@ def session_case(rng, tier):
                                           rng.choice([1000000000 + rng.randrange(100000)] * 3 + [0, 1, -1, -86400, 2 ** 31, 4102444800])))
         w.emit('fm_stat')
         if rng.random() < 0.5:
-            w.emit('fm_open ro %s 0' % rng.choice(COMPR)); w.emit('fm_snap'); w.emit('fm_close'); w.emit('fm_stat')
+            w.emit('fm_open ro %s 0' % rng.choice(COMPR)); w.emit('fm_snap'); w.emit(rng.choice(['fm_close', 'fm_close', 'fm_close keep'])); w.emit('fm_stat')
     w.emit('fm_open rw %s %d' % (rng.choice(COMPR), 1 if rng.random() < 0.1 else 0))
     w.emit('fm_snap')
     rebind(w, e)
     for m in muts:
         w.lines.append('fm_try mut ' + m)
     w.emit('fm_snap')
-    w.emit('fm_close')
+    w.emit(rng.choice(['fm_close', 'fm_close', 'fm_close keep']))
     w.emit('fm_stat')
     w.emit('fm_open ro %s 0' % rng.choice(COMPR))
     w.emit('fm_snap')
-    w.emit('fm_close')
+    w.emit(rng.choice(['fm_close', 'fm_close', 'fm_close keep']))
     w.emit('fm_stat')
     # ---- overwrite
     w.emit('fm_open ow %s %d' % (rng.choice(COMPR), rng.choice([0, 0, 1])))
@@ -253,11 +253,11 @@ def session_case(rng, tier):
     if rng.random() < 0.5:
         w.lines.append('fm_try any mk $o1 B $F %s %s' % (S('after-overwrite'), S('t')))
         w.emit('fm_snap')
-    w.emit('fm_close')
+    w.emit(rng.choice(['fm_close', 'fm_close', 'fm_close keep']))
     w.emit('fm_stat')
     w.emit('fm_open ro auto 0')
     w.emit('fm_snap')
-    w.emit('fm_close')
+    w.emit(rng.choice(['fm_close', 'fm_close', 'fm_close keep']))
     w.emit('fm_stat')
     return w.lines
 
